@@ -274,6 +274,14 @@ func main() {
 	t0 := time.Now()
 
 	if replay != "" {
+		// an unreadable replay file is harness trouble, never a violation
+		if abs, err := filepath.Abs(replay); err == nil {
+			replay = abs
+		}
+		if b, err := os.ReadFile(replay); err != nil || !json.Valid(b) {
+			fmt.Printf("HARNESS: replay file %s cannot be read (%v)\n", replay, err)
+			os.Exit(2)
+		}
 		// the replay file names its property; a race replay needs the race build
 		bin := build(strings.HasPrefix(prop, "C16"))
 		if d, err := os.MkdirTemp("", "vreplay-"); err == nil {
